@@ -47,7 +47,7 @@ func (c *vC05Crypto) VerifyReportSignatures(_ context.Context, sigs []cciptypes.
 	if c.ok {
 		return nil
 	}
-	return vErr
+	return vErrNext()
 }
 
 type vC05Home struct {
@@ -57,7 +57,7 @@ type vC05Home struct {
 
 func (h vC05Home) GetRMNNodesInfo(cciptypes.Bytes32) ([]rmntypes.HomeNodeInfo, error) {
 	if h.err {
-		return nil, vErr
+		return nil, vErrNext()
 	}
 	return nil, nil
 }
@@ -69,7 +69,7 @@ type vC05Controller struct {
 
 func (c vC05Controller) InitConnection(context.Context, cciptypes.Bytes32, cciptypes.Bytes32, []ragep2ptypes.PeerID, []rmntypes.HomeNodeInfo) error {
 	if c.err {
-		return vErr
+		return vErrNext()
 	}
 	return nil
 }
@@ -231,7 +231,7 @@ func TestVerif_C05_obs(t *testing.T) {
 			observer:        vC05Observer{},
 			ccipReader: &vCCIPReader{AddrFn: func(name string, chain cciptypes.ChainSelector) ([]byte, error) {
 				if offErr {
-					return nil, vErr
+					return nil, vErrNext()
 				}
 				return offAddr, nil
 			}},
@@ -400,7 +400,7 @@ func (c *vC05ChainCtrl) ComputeReportSignatures(_ context.Context, dest *rmnpb.L
 	case "timeout":
 		return nil, rmn.ErrTimeout
 	case "err":
-		return nil, vErr
+		return nil, vErrNext()
 	}
 	return c.bundle, nil
 }
@@ -485,12 +485,12 @@ func TestVerif_C05_chain(t *testing.T) {
 			AddrFn: func(name string, chain cciptypes.ChainSelector) ([]byte, error) {
 				if name == consts.ContractNameOffRamp {
 					if offErr {
-						return nil, vErr
+						return nil, vErrNext()
 					}
 					return offAddr, nil
 				}
 				if onAddrErr[chain] {
-					return nil, vErr
+					return nil, vErrNext()
 				}
 				return onAddr(chain), nil
 			},
@@ -624,7 +624,7 @@ func TestVerif_C05_chain(t *testing.T) {
 			var out Outcome
 			haveOut := false
 			var co consensusObservation
-			var cerr error = vErr
+			var cerr error = vErrNext()
 			if !leaderFailed {
 				obsT := make([]string, 4)
 				codes := make([]int, 4)
